@@ -583,8 +583,9 @@ class Lifter:
             return self.zext(SV(a.ref, a.w, "uns"), n)
         if f in ("shift_left", "shift_right"):
             a = self.expr(args[0], p, env, ctx)
-            if a.kind != "uns":
-                raise LiftError(f"{p.label}: {f} on {a.kind} (numeric_std defines it for UNSIGNED/SIGNED)")
+            akind = a.kind if a.kind != "str" else (ctx[0] if ctx is not None else "str")   # a literal takes the type the context demands
+            if akind != "uns":
+                raise LiftError(f"{p.label}: {f} on {'slv' if akind in ('slv', 'str') else akind} (numeric_std defines it for UNSIGNED/SIGNED)")
             n = strip_paren(args[1])
             if n[0] == "call" and n[1] == "to_integer" and len(n[2]) == 1:
                 amt = self.expr(n[2][0], p, env, ("uns", 0, 0))
